@@ -18,7 +18,7 @@ ASSUMPTIONS = [
     "a parameter is 'settable by the caller' if two different accepted values produce different PDUs (DOPs of the generator are injective)",
     "required/free are judged on the top-level parameter list of the request/response (what required_parameters/free_parameters describe)",
 ]
-MUST_HIT = ["prefix-other-request:pdu-differs", "table-key:static", "table-key:dynamic", "table-key:dynamic-key-only", "last-listed-not-last", "free-value-honoured-checked", "static-message", "dynamic-message", "prefix-checked", "prefix>=2", "omit-required", "omit-optional",
+MUST_HIT = ["short-request-rejected", "prefix-other-request:pdu-differs", "table-key:static", "table-key:dynamic", "table-key:dynamic-key-only", "last-listed-not-last", "free-value-honoured-checked", "static-message", "dynamic-message", "prefix-checked", "prefix>=2", "omit-required", "omit-optional",
             "alt-free", "alt-nonfree", "object-static", "BYTE-SIZE", "default-value", "out-of-order", "pk:matchreq",
             "bitmask"]
 NT = {"bitmask", "condensed-mask", "BYTE-SIZE", "out-of-order", "default-value", "dct:paramlen", "struct", "sfield",
@@ -75,6 +75,22 @@ def eval_case(case, res: core.ShardResult | None = None) -> list:
         cls.add("static-message")
         if 8 * len(pdu) != L:
             fails.append(_fail("message-static-length", f"get_static_bit_length()={L} but PDU {pdu.hex()} has {8 * len(pdu)} bits", case))
+        if not is_req and rq:
+            # "every encoding": also for the other requests the response may be encoded for (shorter ones that
+            # end inside the range a MATCHING-REQUEST-PARAM echoes are either rejected or give the static length)
+            for cut in range(len(rq)):
+                try:
+                    with mh.quiet_warnings():
+                        p2 = bytes(obj.encode(coded_request=rq[:cut], **vals))
+                except Exception:
+                    cls.add("short-request-rejected")
+                    continue
+                cls.add("short-request-accepted")
+                if 8 * len(p2) != L:
+                    fails.append(_fail("message-static-length", f"get_static_bit_length()={L} but the PDU {p2.hex()} encoded for "
+                                       f"the request {rq[:cut].hex()!r} has {8 * len(p2)} bits", case,
+                                       {"bucket": "message-static-length:short-request"}))
+                    break
     else:
         cls.add("dynamic-message")
     # (a) object level: each top-level parameter on its own
